@@ -11,12 +11,21 @@ def run(chk):
                 "Replay: every emitted message is materialised byte for byte (real multihashes, CBOR payloads, ECDSA signatures) and fed to "
                 "Update.Verify, Witness.Update (witness at every index), EventList.Verify and Update.Prepend (every genuine target), in memory "
                 "and after real JSON and CBOR round trips; a violation is real-code acceptance of a message the spec marks not authentic, a "
-                "state change on rejection, or a panic. Non-trivial = distinct mutated message.")
+                "state change on rejection, or a panic. Mutations include a NEGATED value (the event hash does not see the sign; memory only), a MISSING value, a message without "
+                "accumulator; further entry points: the verified object verified again under an UNRELATED key (memo of the signature check), FlattenEventLists of the events cut in "
+                "two followed by EventList.Verify. RevAPI.tla: the life cycle of the message objects (updates built / decoded / decoded-and-verified, with and without events; event lists "
+                "decoded into fresh or used variables, empty or not, JSON and CBOR; witnesses in memory or read from storage; lists flattened with empty or product-less parts; one "
+                "flattened list prepended to two updates) - every call returns with the owed outcome class, a failing call changes nothing, bystander objects stay intact. "
+                "Non-trivial = distinct mutated message / scenario.")
     chk.assumptions = ["hash and signature are idealised in the model (injective / unforgeable); the harness uses the real SHA-256, multihash and ECDSA",
                        "toy 64-bit moduli", "SignedAccumulator.Accumulator memo is clear on received messages (it is not serialised)"]
     mc = "RevAuth.mc.thorough.cfg" if thorough else "RevAuth.mc.quick.cfg"
     r = vplib.tlc_mc("RevAuth", mc, timeout=3000)
-    chk.add_tlc(r, "RevAuth", mc, "AuthVerify, AuthEventList, AuthEventListTwice, AuthPrepend, AuthPrependToMsg")
+    chk.add_tlc(r, "RevAuth", mc, "AuthVerify, AuthEventList, AuthEventListTwice, AuthPrepend, AuthPrependToMsg, AuthOtherKey, AuthFlatten")
+    for v, inv in (("PositiveCheck", "AuthVerify"), ("MemoByKey", "AuthOtherKey"), ("FlattenUnverified", "AuthFlatten")):
+        pr = vplib.tlc("RevAuth", "RevAuth.asis.%s.cfg" % v, timeout=600, allow_fail=True)
+        if inv not in pr.invariant_violated:
+            raise vplib.Machinery("RevAuth: without %s the invariant %s should be violated (vacuity)" % (v, inv))
     r = vplib.tlc_mc("RevAuth", "RevAuth.hash.cfg", timeout=600)
     chk.add_tlc(r, "RevAuth", "RevAuth.hash.cfg", "HashEqIsEquality")
     r = vplib.tlc("RevAuth", "RevAuth.nonvacuous.cfg", timeout=600, allow_fail=True)
@@ -48,6 +57,18 @@ def run(chk):
     open(hp, "w").write("\n".join(hcases) + "\n")
     res = vplib.vh("rev", ["auth", "--in", cp, "--tier", T, "--seed", str(chk.seed), hp], timeout=3000)
     chk.add_replay(res, "message_replay")
+    # life cycle of the message objects (RevAPI.tla): built / decoded into fresh or used variables / verified or not / read from storage
+    g = vplib.tlc_mc("RevAPIGen", "RevAPI.cfg", workers=1, timeout=300)
+    scen = sorted(set(g.tagged_raw_json("A")))
+    chk.add_tlc(g, "RevAPIGen", "RevAPI.cfg", "Total, FailLeavesUnchanged; %d (object state, call) scenarios" % len(scen))
+    if len(scen) < 20:
+        raise vplib.Machinery("only %d API scenarios" % len(scen))
+    ap = os.path.join(vplib.sub("c10"), "api.ndjson")
+    open(ap, "w").write("\n".join(scen) + "\n")
+    res = vplib.vh("rev", ["api", "--in", ap, "--tier", T, "--seed", str(chk.seed)], timeout=600)
+    if res["evaluations"] != len(scen):
+        raise vplib.Machinery("api replay: %d of %d" % (res["evaluations"], len(scen)))
+    chk.add_replay(res, "object_life_cycle")
 
 def replay(chk, path):
     v = json.load(open(path))
